@@ -36,10 +36,10 @@ struct PtrCtor {
   friend bool operator==(const PtrCtor &a, const PtrCtor &b) { return a.val() == b.val(); }
 };
 
-enum OpK { AK_PUSH_BACK, AK_INSERT, AK_INSERT_N, AK_EMPLACE, AK_EMPLACE_BACK, AK_RESIZE, AK_ASSIGN, AK_APPEND, AK_EMPLACE_PTR, AK_EMPLACE_BACK_PTR, AK_NOPS };
+enum OpK { AK_PUSH_BACK, AK_INSERT, AK_INSERT_N, AK_EMPLACE, AK_EMPLACE_BACK, AK_RESIZE, AK_ASSIGN, AK_APPEND, AK_EMPLACE_PTR, AK_EMPLACE_BACK_PTR, AK_EMPLACE_CREF, AK_EMPLACE_BACK_CREF, AK_NOPS };
 static const char *opname(int o) {
   static const char *n[] = {"push_back(v[i])", "insert(pos,v[i])", "insert(pos,n,v[i])", "emplace(pos,v[i])", "emplace_back(v[i])", "resize(n,v[i])", "assign(n,v[i])",
-                            "append(n,v[i])", "emplace(pos,&v[i])", "emplace_back(&v[i])"};
+                            "append(n,v[i])", "emplace(pos,&v[i])", "emplace_back(&v[i])", "emplace(pos,as_const(v)[i])", "emplace_back(as_const(v)[i])"};
   return n[o];
 }
 
@@ -62,13 +62,13 @@ static void run_flavour(const char *name, bool force_heap) {
   const long N = static_cast<long>(V::kInlineCapacity);
   const long lim = is_fcv ? N : 1000;
   for (int op = 0; op < AK_NOPS; ++op) {
-    if (!HasPtr && op >= AK_EMPLACE_PTR) continue;
+    if (!HasPtr && (op == AK_EMPLACE_PTR || op == AK_EMPLACE_BACK_PTR)) continue;
     for (long size = 1; size <= 6; ++size)
       for (long pos = 0; pos <= size; ++pos)
         for (long src = 0; src < size; ++src)
           for (long cnt = 0; cnt <= 4; ++cnt)
             for (int spare = 0; spare < 4; ++spare) {
-              const bool positional = (op == AK_INSERT || op == AK_INSERT_N || op == AK_EMPLACE || op == AK_EMPLACE_PTR);
+              const bool positional = (op == AK_INSERT || op == AK_INSERT_N || op == AK_EMPLACE || op == AK_EMPLACE_PTR || op == AK_EMPLACE_CREF);
               const bool counted = (op == AK_INSERT_N || op == AK_RESIZE || op == AK_ASSIGN || op == AK_APPEND);
               if (!positional && pos > 0) continue;
               if (!counted && cnt > 0) continue;
@@ -105,7 +105,7 @@ static void run_flavour(const char *name, bool force_heap) {
                 if (positional && src < pos) feature(2);
                 if (realloc) feature(1);
                 if (cnt >= 2) feature(3);
-                if (op >= AK_EMPLACE_PTR) feature(6);
+                if (op == AK_EMPLACE_PTR || op == AK_EMPLACE_BACK_PTR) feature(6);
                 nontriv = (positional && src >= pos) || realloc;
                 const int v = m[static_cast<size_t>(src)];  // as if copied first
                 long ret = pos;
@@ -121,6 +121,8 @@ static void run_flavour(const char *name, bool force_heap) {
                     case AK_ASSIGN: c.assign(static_cast<ST>(target), c[s]); m.assign(static_cast<size_t>(target), v); break;
                     case AK_APPEND: c.append(static_cast<ST>(cnt), c[s]); m.insert(m.end(), static_cast<size_t>(cnt), v); break;
                     case AK_EMPLACE_PTR: PtrOps<V, HasPtr>::emplace(c, pos, src); ret = pos; m.insert(m.begin() + pos, v); break;
+                    case AK_EMPLACE_CREF: { const V &cc = c; ret = c.emplace(c.begin() + pos, cc[s]) - c.begin(); m.insert(m.begin() + pos, v); break; }
+                    case AK_EMPLACE_BACK_CREF: { const V &cc = c; c.emplace_back(cc[s]); m.push_back(v); break; }
                     default: PtrOps<V, HasPtr>::emplace_back(c, src); m.push_back(v); break;
                   }
                 } catch (const std::exception &e) {
